@@ -21,6 +21,29 @@ CHECKS = {
         "torch indexing primitives trusted; sizes beyond N=5 and observation shapes beyond (2,2) not explored; canonical "
         "merge relies on the code never branching on stored values",
     ),
+    "C02": (
+        "exploration", "DESIGN.md §3 C02",
+        "exhaustive finite-domain sweep (dt x N x pointer x offset x tolerance x quarter-step time grid x interp/extrap) "
+        "against a rational reference; scalar==tensor and insert->select round-trip differential oracles",
+        "Every combination of step time {1,0.5}, record size 1..4(5), pointer position, offset {0,1,2}, tolerance "
+        "{0,1e-6,dt/4}, every time on the quarter-step grid incl. both range limits and the tolerance band, all six "
+        "interpolations and eight extrapolations, scalar / per-element tensor / trailing-D times, in-place or not, is "
+        "executed on a ring state reached by real pushes and compared with an exact-rational reference.",
+        "times between grid points and non-representable step times at zero tolerance are outside the alphabet; torch "
+        "gather/scatter trusted",
+    ),
+    "C13": (
+        "model_checking", "DESIGN.md §3 C13",
+        "explicit-state BFS over temporal-setter/push sequences and reconstrain sequences from every (pointer, fill) "
+        "start state, list model + independently recomputed constraint validity",
+        "All sequences (depth 3 quick / 4 thorough after the start state) of dt=/duration=/inclusive=/push from every "
+        "pointer position and fill level and every uninitialised storage kind, and all reconstrain add/edit/remove "
+        "sequences (depth 4/5) on strict and non-strict shaped and record tensors, are executed on the real objects; size "
+        "formula, preserved newest observations, zero fill, refusal without side effects and validity are compared "
+        "with the model after every transition.",
+        "record sizes 1..11 reached through dt in {1,0.5,0.3} and durations {0,0.9,1,2,3,4}; dims {0,1,-1,-2}; the "
+        "shipped strict-compatibility rule is taken as the definition of 'compatible' for strict constraints",
+    ),
 }
 
 PENDING_REASON = "check not built yet in this session (claimed in DESIGN.md; will move to checks when its exploration exists)"
